@@ -531,6 +531,12 @@ def binop(I, node, op, l, r):
         out.frame = None
         if n == 2:
             out.tags["squared"] = l
+    if isinstance(op, ast.Add) and (l.tag("floating") or r.tag("floating")):
+        out.tags["floating"] = True
+        if (r.known and r.const == 0.5) or (l.known and l.const == 0.5):
+            out.tags["plus_half"] = True
+    if isinstance(op, (ast.Add, ast.Sub, ast.Mult)) and any(x.tag("arange") or x.tag("affine_grid") for x in (l, r)):
+        out.tags["affine_grid"] = True        # start + k·step: the last point is a rounded product, not the requested end
     out.sign = sign_binop(op, l, r)
     pp = poly_binop(op, l, r)
     if pp is not None:
@@ -690,7 +696,7 @@ def attribute(I, e, b):
     if attr in ("magnitude", "m"):
         return b.copy(term=mk_term("magnitude", b.term))
     if attr in ("units", "dtype", "flags"):
-        return Val(shp=f.data | f.shp, ctrl=f.ctrl, term=mk_term(attr, b.term))
+        return Val(shp=f.data | f.shp, ctrl=f.ctrl, term=mk_term(attr, b.term), tags={"dtype_of": True} if attr == "dtype" else {})
     out = Val(data=f.data, shp=f.shp, ctrl=f.ctrl, refs=f.refs, term=mk_term("attr", attr, b.term),
               tags={"attr_of": (attr, b)})
     if b.tag("kind") == "pca":
@@ -770,6 +776,12 @@ def subscript(I, e, b):
     if b.tag("truncated_basis") or (b.tag("basis_factor") and any(isinstance(x, ast.Slice) and (x.upper is not None or x.lower is not None)
                                                                    for x in _index_elems(e))):
         out.tags["truncated_basis"] = True        # a proper subset of the orthogonal directions
+    if b.tag("point") and not b.tag("sorted") and ci is not None and b.tag("kind") == "ndarray" and (
+            b.shape is None or b.shape.rank == 1):
+        # the k-th stored sample of a coordinate array: its value depends on the ORDER in which the samples are stored
+        out.data = out.data | {f"pick@{I.fr.fn.module.relpath}:{e.lineno}"}
+        out.tags.pop("point", None)
+        I.emit("positional_pick", e, base=b, index=ci)
     if idx.tag("drawn_indices") or b.tag("rows_drawn"):
         out.tags["rows_drawn"] = True            # rows selected / permuted by a random draw
     if b.tag("sum_dim") is not None and ci is not None:
@@ -1137,6 +1149,10 @@ def call_builtin(I, e, name, args, kws):
                 out.tags["kind"] = "int"
                 out.shp = out.shp | out.data
                 out.data = E
+                how = a0.tag("rounded")
+                if how is None and a0.tag("floating"):
+                    how = "nearest" if a0.tag("plus_half") else "trunc"      # int(x) truncates; int(x + 0.5) rounds half up (x ≥ 0)
+                I.emit("int_cast", e, arg=a0, how=how)
             if a0.known and _is_lit(a0):
                 try:
                     out.const = {"int": int, "float": float, "bool": bool, "round": round, "abs": abs}[name](a0.const)
